@@ -16,9 +16,11 @@ Record cfg := mkCfg {
   c_ren : Z;          (* renewalsPerLeadershipDur *)
   c_retry : Z;        (* retry period in renewWithRetry, ns *)
   c_cfr : bool;       (* releaseLeadership: cancel() before CompareAndDelete *)
-  c_cfc : bool        (* cleanup: cancel() before CompareAndDelete *)
+  c_cfc : bool;       (* cleanup: cancel() before CompareAndDelete *)
+  c_coe : bool        (* maintainLeadership: cancel() whenever the goroutine returns *)
 }.
-Definition go_cfg : cfg := mkCfg elect_renewals elect_retry_ns elect_release_cancel_first elect_cleanup_cancel_first.
+Definition go_cfg : cfg :=
+  mkCfg elect_renewals elect_retry_ns elect_release_cancel_first elect_cleanup_cancel_first elect_cancel_on_exit.
 
 Definition sec : Z := 1000000000.
 Definition msn : Z := 1000000.
@@ -124,6 +126,8 @@ Definition upd_li (i : nat) (f : linfo -> linfo) (s : state) := set_lis (upd (li
 Definition upd_part (p : nat) (f : part -> part) (s : state) := set_parts (upd (parts s) p f) s.
 Definition cancel (j : nat) (s : state) := upd_li j (set_live false) s.
 Definition cancel_if (b : bool) (j : nat) (s : state) := upd_li j (fun l => set_live (llive l && negb b) l) s.
+(* the renewal goroutine returns *)
+Definition gone (c : cfg) (l : linfo) := set_live (llive l && negb (c_coe c)) (set_ph MGone l).
 
 Inductive gate := GIns | GCas | GCad.
 Inductive out :=
@@ -171,7 +175,7 @@ Definition g_release (c : cfg) (s : state) (i : nat) (li : linfo) : option (stat
   | None => None
   | Some pt =>
     match mget (lkey li) (pmap pt) with
-    | None => Some (upd_li i (set_ph MGone) s, ONone)
+    | None => Some (upd_li i (gone c) s, ONone)
     | Some j =>
       match nth_error (lis s) j with
       | None => None
@@ -307,7 +311,7 @@ Definition step (c : cfg) (s : state) (a : action) : option (state * out) :=
       | MWait tk =>
         if tk <=? now s then
           if llive li then Some (upd_li i (set_ph (MCas (now s + interval c (ldur li)))) s, OGate GCas (lkey li) (lval li) (ldur li))
-          else Some (upd_li i (set_ph MGone) s, ONone)
+          else Some (upd_li i (gone c) s, ONone)
         else None
       | _ => None end
     | None => None end
@@ -325,7 +329,7 @@ Definition step (c : cfg) (s : state) (a : action) : option (state * out) :=
     match nth_error (lis s) i with
     | Some li =>
       match lph li with
-      | MCasRet dl RTrue => Some (upd_li i (set_ph (if llive li then MWait dl else MGone)) s, ONone)
+      | MCasRet dl RTrue => Some (upd_li i (if llive li then set_ph (MWait dl) else gone c) s, ONone)
       | MCasRet dl RFalse => g_release c s i li
       | MCasRet dl RErr => Some (upd_li i (set_ph (MRetry dl (now s + c_retry c))) s, ONone)
       | _ => None end
@@ -337,7 +341,7 @@ Definition step (c : cfg) (s : state) (a : action) : option (state * out) :=
       | MRetry dl rt =>
         if rt <=? now s then
           if llive li then Some (upd_li i (set_ph (MCas dl)) s, OGate GCas (lkey li) (lval li) (ldur li))
-          else Some (upd_li i (set_ph MGone) s, ONone)
+          else Some (upd_li i (gone c) s, ONone)
         else None
       | _ => None end
     | None => None end
@@ -364,14 +368,14 @@ Definition step (c : cfg) (s : state) (a : action) : option (state * out) :=
     match nth_error (lis s) i with
     | Some li =>
       match lph li with
-      | MCadRet j => Some (upd_li i (set_ph MGone) (cancel_if (negb (c_cfr c)) j s), ONone)
+      | MCadRet j => Some (upd_li i (gone c) (cancel_if (negb (c_cfr c)) j s), ONone)
       | _ => None end
     | None => None end
   | Exit i =>
     match nth_error (lis s) i with
     | Some li =>
       match lph li, llive li with
-      | MWait _, false | MRetry _ _, false => Some (upd_li i (set_ph MGone) s, ONone)
+      | MWait _, false | MRetry _ _, false => Some (upd_li i (gone c) s, ONone)
       | _, _ => None end
     | None => None end
   end.
@@ -441,22 +445,29 @@ Record ost := mkOst {
   os_pend : list (nat * (N * N * Z));   (* AcquireLeadership calls in progress *)
   os_ctx : list cinfo;                  (* contexts handed out *)
   os_vals : list (nat * N);             (* values each participant ever used *)
-  os_open : list nat                    (* participants inside ReleaseLeadership / cleanup *)
+  os_open : list nat;                   (* participants inside ReleaseLeadership / cleanup *)
+  os_ext : list N                       (* keys whose record was deleted by a third party *)
 }.
 Fixpoint aget {A} (p : nat) (l : list (nat * A)) : option A :=
   match l with [] => None | (q, x) :: t => if Nat.eqb p q then Some x else aget p t end.
 Fixpoint adel {A} (p : nat) (l : list (nat * A)) : list (nat * A) :=
   match l with [] => [] | (q, x) :: t => if Nat.eqb p q then adel p t else (q, x) :: adel p t end.
+(* participants use different values (else CompareAndDelete(own value) removes a namesake's record:
+   outside the property, exercised by the malformed stream only) *)
+Definition vals_ok (l : list (nat * N)) : bool :=
+  forallb (fun e => forallb (fun e' => negb (N.eqb (snd e) (snd e')) || Nat.eqb (fst e) (fst e')) l) l.
 Definition has_val (p : nat) (v : N) (l : list (nat * N)) : bool :=
   existsb (fun e => Nat.eqb (fst e) p && N.eqb (snd e) v) l.
 
-(* at most one live context per key among different participants *)
-Fixpoint mutex_ok (cs : list cinfo) (live : list bool) : bool :=
+(* at most one live context per key among different participants; keys whose record a third party
+   deleted are outside the property (no lease survives that: mutex_external_delete_refuted) *)
+Fixpoint mutex_ok (ext : list N) (cs : list cinfo) (live : list bool) : bool :=
   match cs, live with
   | c1 :: cs', b :: live' =>
-    (negb b || forallb (fun cb => negb (snd cb) || negb (N.eqb (ci_k (fst cb)) (ci_k c1)) || Nat.eqb (ci_p (fst cb)) (ci_p c1))
-                       (combine cs' live'))
-    && mutex_ok cs' live'
+    (negb b || existsb (N.eqb (ci_k c1)) ext
+     || forallb (fun cb => negb (snd cb) || negb (N.eqb (ci_k (fst cb)) (ci_k c1)) || Nat.eqb (ci_p (fst cb)) (ci_p c1))
+                (combine cs' live'))
+    && mutex_ok ext cs' live'
   | _, _ => true
   end.
 (* a live context is never older than D/2 since its last successful InsertIfNotExist/CompareAndSwap
@@ -480,20 +491,21 @@ Definition upd_last (id : nat) (t : Z) (cs : list cinfo) : list cinfo :=
 (* one observed action at clock t: what the observer learns (None: inconsistent record) *)
 Definition sat_ev (t : Z) (o : ost) (e : action * out) : option ost :=
   match e with
-  | (AcqCall p k v d, OGate _ _ _ _) => Some (mkOst ((p, (k, v, d)) :: os_pend o) (os_ctx o) ((p, v) :: os_vals o) (os_open o))
-  | (AcqCall p k v d, _) => Some (mkOst (os_pend o) (os_ctx o) ((p, v) :: os_vals o) (os_open o))
+  | (AcqCall p k v d, OGate _ _ _ _) => Some (mkOst ((p, (k, v, d)) :: os_pend o) (os_ctx o) ((p, v) :: os_vals o) (os_open o) (os_ext o))
+  | (AcqCall p k v d, _) => Some (mkOst (os_pend o) (os_ctx o) ((p, v) :: os_vals o) (os_open o) (os_ext o))
   | (InsRet p, ORetCtx id) =>
     match aget p (os_pend o) with
     | Some (k, v, d) =>
       if Nat.eqb id (length (os_ctx o))
-      then Some (mkOst (adel p (os_pend o)) (os_ctx o ++ [mkCi p k v d t]) (os_vals o) (os_open o))
+      then Some (mkOst (adel p (os_pend o)) (os_ctx o ++ [mkCi p k v d t]) (os_vals o) (os_open o) (os_ext o))
       else None
     | None => None end
-  | (InsRet p, _) => Some (mkOst (adel p (os_pend o)) (os_ctx o) (os_vals o) (os_open o))
-  | (CasEff i _, ORes RTrue) => Some (mkOst (os_pend o) (upd_last i t (os_ctx o)) (os_vals o) (os_open o))
-  | (RelCall p _, OGate _ _ _ _) | (ClnCall p, _) => Some (mkOst (os_pend o) (os_ctx o) (os_vals o) (p :: os_open o))
+  | (InsRet p, _) => Some (mkOst (adel p (os_pend o)) (os_ctx o) (os_vals o) (os_open o) (os_ext o))
+  | (CasEff i _, ORes RTrue) => Some (mkOst (os_pend o) (upd_last i t (os_ctx o)) (os_vals o) (os_open o) (os_ext o))
+  | (RelCall p _, OGate _ _ _ _) | (ClnCall p, _) => Some (mkOst (os_pend o) (os_ctx o) (os_vals o) (p :: os_open o) (os_ext o))
   | (WaitDone p, ORetNil) | (ClnPick p None, ORetNil) =>
-    Some (mkOst (os_pend o) (os_ctx o) (os_vals o) (filter (fun q => negb (Nat.eqb p q)) (os_open o)))
+    Some (mkOst (os_pend o) (os_ctx o) (os_vals o) (filter (fun q => negb (Nat.eqb p q)) (os_open o)) (os_ext o))
+  | (ExtDelete k, _) => Some (mkOst (os_pend o) (os_ctx o) (os_vals o) (os_open o) (k :: os_ext o))
   | _ => Some o
   end.
 Fixpoint sat_evs (t : Z) (o : ost) (evs : list (action * out)) : option ost :=
@@ -515,8 +527,9 @@ Definition sat_batch (o : ost) (prev : list (N * option N)) (b : batch) : option
   | None => None
   | Some o2 =>
     let ob := b_obs b in
-    if store_ok o2 prev b && Nat.eqb (length (o_live ob)) (length (os_ctx o2))
-       && mutex_ok (os_ctx o2) (o_live ob) && bound_ok (o_now ob) (os_ctx o2) (o_live ob)
+    if (negb (vals_ok (os_vals o2)) || (store_ok o2 prev b && mutex_ok (os_ext o2) (os_ctx o2) (o_live ob)))
+       && Nat.eqb (length (o_live ob)) (length (os_ctx o2))
+       && bound_ok (o_now ob) (os_ctx o2) (o_live ob)
     then Some o2 else None
   end.
 Fixpoint sat_from (o : ost) (prev : list (N * option N)) (bs : list batch) : bool :=
@@ -527,5 +540,5 @@ Fixpoint sat_from (o : ost) (prev : list (N * option N)) (bs : list batch) : boo
 Definition satisfies (t : trace) : bool :=
   match t_batches t with
   | [] => true
-  | b :: _ => sat_from (mkOst [] [] [] []) (map (fun kv => (fst kv, None)) (o_store (b_obs b))) (t_batches t)
+  | b :: _ => sat_from (mkOst [] [] [] [] []) (map (fun kv => (fst kv, None)) (o_store (b_obs b))) (t_batches t)
   end.
